@@ -799,8 +799,8 @@ func verifySeal(native *native.NativeService, header *eth.Header, ctx *Context, 
 	}
 
 	difficulty := snap.Difficulty(signer)
-	if header.Difficulty.Uint64() != difficulty {
-		err = fmt.Errorf("WrongDifficultyError, n:%d, expected:%d, actual:%d", number, difficulty, header.Difficulty.Uint64())
+	if !header.Difficulty.IsUint64() || header.Difficulty.Uint64() != difficulty {
+		err = fmt.Errorf("WrongDifficultyError, n:%d, expected:%d, actual:%s", number, difficulty, header.Difficulty.String())
 		return
 	}
 
